@@ -17,6 +17,7 @@ RULE = (
     "shape and dtype (up to byte order); every attribute is bool/int/float/str or nested "
     "list/tuple of those; repr(tree), _repr_html_() and nbytes of each node do not raise; for "
     "selections sel.shape == sel.values.shape. Non-trivial: level 1.1 or >=1 blank header field."
+    " Half of the products carry free-text summary entries that are left empty."
 )
 ASSUMPTIONS = ["NumPy scalar attribute values are accepted as plain scalars"]
 BUDGET = {"quick": 120, "thorough": 1500}
